@@ -201,6 +201,23 @@ def tlc(module, cfg, workdir, workers=None, env=None, timeout=900, simulate=None
     return res
 
 
+def apalache(module, workdir, init, inv, length, timeout=600):
+    """apalache-mc check --init=<init> --inv=<inv> --length=<length>; returns dict(ok, error_found, out)."""
+    if not os.path.exists(os.path.join(workdir, module + ".tla")):
+        copy_specs(workdir)
+    out_dir = tempfile.mkdtemp(prefix="apa-", dir=workdir)
+    cmd = ["apalache-mc", "check", f"--init={init}", f"--inv={inv}", f"--length={length}", f"--out-dir={out_dir}", module + ".tla"]
+    t0 = time.time()
+    try:
+        p = subprocess.run(cmd, cwd=workdir, stdout=subprocess.PIPE, stderr=subprocess.STDOUT, timeout=timeout, text=True, errors="replace")
+        out, rc = p.stdout, p.returncode
+    except (subprocess.TimeoutExpired, FileNotFoundError) as ex:
+        raise Inconclusive(f"apalache-mc did not finish ({ex.__class__.__name__}) on {module} {init} => {inv}")
+    shutil.rmtree(out_dir, ignore_errors=True)
+    log(f"[apalache {module} {init} => {inv} length={length}] rc={rc} {time.time()-t0:.1f}s")
+    return dict(ok=("The outcome is: NoError" in out and rc == 0), error_found="The outcome is: Error" in out, out=out)
+
+
 def tlc_must_pass(res, what):
     """Design-level model check of our own spec: a failure here is never a code violation."""
     if res["timeout"]:
